@@ -29,6 +29,9 @@ pub struct SockOut {
     pub timeline: Vec<(&'static str, u64, u64)>,
     pub t_connect_us: u64,
     pub steps: Vec<String>,
+    /// (bytes sent, response bytes received, response bytes owed) at a chunk boundary where the server
+    /// was idle in read although completely sent requests were still unanswered one second later
+    pub stalled: Option<(usize, usize, usize)>,
 }
 
 /// Sends `stream` cut at `cuts`, each chunk only after the previous one was
@@ -39,6 +42,15 @@ pub const SENTINEL: u32 = 0x5e47_1e1;
 /// close the connection: the driver reads until that response or the end of the connection arrives
 /// (data the server has written may still be in flight when the server is already idle again).
 pub fn run_socket_stream(srv: &Server, stream: &[u8], cuts: &[usize], expect_close: bool) -> Result<SockOut, String> {
+    run_socket_stream_owed(srv, stream, cuts, expect_close, None)
+}
+
+/// `owed(n)` = response bytes the requests wholly contained in the first n stream bytes produce (known
+/// from an unsplit run of the same stream). At every chunk boundary the server is waited for until it is
+/// idle in read; if it then still owes responses and they do not arrive within a second, a completely
+/// sent request is being sat on.
+pub fn run_socket_stream_owed(srv: &Server, stream: &[u8], cuts: &[usize], expect_close: bool, owed: Option<&dyn Fn(usize) -> usize>) -> Result<SockOut, String> {
+    let mut stalled: Option<(usize, usize, usize)> = None;
     let mut c = Cli::connect(srv.port)?;
     let t_start = Instant::now();
     let t_connect_us = crate::sock::now_us();
@@ -65,6 +77,35 @@ pub fn run_socket_stream(srv: &Server, stream: &[u8], cuts: &[usize], expect_clo
             // the server is done with this connection: the rest cannot be delivered meaningfully
             break;
         }
+        if let (Some(f), None) = (owed, stalled) {
+            let want = f(b);
+            // only an idle server (blocked in the frame loop's read with everything sent so far taken out
+            // of the socket) that still owes responses a second later is sitting on a request; a server
+            // that is busy (e.g. discarding an oversized body) is simply not asked
+            let t0 = Instant::now();
+            let sent = c.sent;
+            let mut idle_since: Option<Instant> = None;
+            while c.rx.len() < want && c.end == End::Open && t0.elapsed() < Duration::from_millis(1500) {
+                c.drain();
+                let o = conn_log().get(c.port);
+                if o.exited {
+                    break;
+                }
+                if o.waiting && o.read_total >= sent {
+                    let since = *idle_since.get_or_insert_with(Instant::now);
+                    if since.elapsed() > Duration::from_secs(1) {
+                        c.drain();
+                        if c.rx.len() < want {
+                            stalled = Some((b, c.rx.len(), want));
+                        }
+                        break;
+                    }
+                } else if idle_since.is_none() && t0.elapsed() > Duration::from_millis(20) {
+                    break; // busy: no verdict at this boundary
+                }
+                std::thread::sleep(Duration::from_micros(200));
+            }
+        }
     }
     c.wait_quiescent(Duration::from_secs(3));
     let obs = conn_log().get(c.port);
@@ -89,7 +130,7 @@ pub fn run_socket_stream(srv: &Server, stream: &[u8], cuts: &[usize], expect_clo
         }
     }
     let obs = conn_log().get(c.port);
-    Ok(SockOut { rx: c.rx.clone(), end: c.end, frames: obs.frames, reads: obs.reads, unconfirmed: c.unconfirmed_splits, server_exited: obs.exited, elapsed_ms: t_start.elapsed().as_millis() as u64, chunks_sent, timeline: obs.timeline.clone(), t_connect_us, steps })
+    Ok(SockOut { rx: c.rx.clone(), end: c.end, frames: obs.frames, reads: obs.reads, unconfirmed: c.unconfirmed_splits, server_exited: obs.exited, elapsed_ms: t_start.elapsed().as_millis() as u64, chunks_sent, timeline: obs.timeline.clone(), t_connect_us, steps, stalled })
 }
 
 /// one request/response exchange on an open observer connection
@@ -782,16 +823,26 @@ pub fn run_sock_frames(ctx: &Ctx) -> i32 {
                         "frames": table.iter().map(|f| format!("[{},{}) {} opq={:#x}{}{}", f.start, f.end, op::name(f.opcode), f.opaque, if f.valid {""} else {" INVALID"}, if f.too_large {" TOOLARGE"} else {""})).collect::<Vec<_>>()});
                     let closes = table.iter().any(|f| f.opcode == op::QUIT || f.opcode == op::QUITQ || !f.valid);
                     let mut base: Option<SockOutcome> = None;
+                    // response bytes per frame of the unsplit run (by opaque), for the owed-responses monitor
+                    let mut per_frame: Vec<usize> = vec![];
                     for cs in &cutsets {
                         let srv = match Server::start(SrvCfg { item_limit: limit, idle_s: 2, ..Default::default() }) {
                             Ok(s) => s,
                             Err(_) => break,
                         };
                         evals += 1;
-                        let out = match run_socket_stream(&srv, &stream, cs, closes) {
+                        let owed = |n: usize| -> usize { table.iter().zip(per_frame.iter()).filter(|(f, _)| f.end <= n).map(|(_, r)| *r).sum() };
+                        let out = match run_socket_stream_owed(&srv, &stream, cs, closes, if per_frame.is_empty() { None } else { Some(&owed) }) {
                             Ok(o) => o,
                             Err(_) => continue,
                         };
+                        if let Some((sent, got, want)) = out.stalled {
+                            shared.lock().unwrap().violation(
+                                Viol::new(&["C10", "C12", "C09"], "complete-request-unanswered", format!("socket: after {} stream bytes the server is idle in read but has answered only {} of the {} response bytes owed for completely sent requests (cut set {:?})", sent, got, want, &cs[..cs.len().min(8)])),
+                                describe(cs),
+                            );
+                            break;
+                        }
                         *local.entry("unconfirmed_chunk_boundaries".into()).or_insert(0) += out.unconfirmed;
                         if out.end == End::Reset {
                             *local.entry("inconclusive:reset".into()).or_insert(0) += 1;
@@ -826,7 +877,15 @@ pub fn run_sock_frames(ctx: &Ctx) -> i32 {
                         }
                         *local.entry(format!("distinct_read_splits:{}", out.reads.len().min(9))).or_insert(0) += 1;
                         match &base {
-                            None => base = Some(o),
+                            None => {
+                                // responses of the unsplit run, attributed to frames by opaque, in order
+                                let rs = parse_prefix(&o.rx);
+                                per_frame = table
+                                    .iter()
+                                    .map(|f| rs.iter().filter(|r| r.opaque == f.opaque).map(|r| 24 + r.extras.len() + r.key.len() + r.value.len()).sum())
+                                    .collect();
+                                base = Some(o)
+                            }
                             Some(b) => {
                                 *local.entry("outcome_comparisons".into()).or_insert(0) += 1;
                                 if *b != o {
@@ -841,8 +900,12 @@ pub fn run_sock_frames(ctx: &Ctx) -> i32 {
                                     };
                                     let mut d = describe(cs);
                                     d["observed"] = json!({"reads": out.reads, "frames": out.frames, "unconfirmed_chunks": out.unconfirmed, "elapsed_ms": out.elapsed_ms, "chunks_sent": out.chunks_sent, "t_connect_us": out.t_connect_us, "steps": out.steps, "timeline": format!("{:?}", out.timeline), "server_port": srv.port, "end": format!("{:?}", out.end), "server_exited": out.server_exited, "rx_hex": wire::hex(&out.rx[..out.rx.len().min(400)]), "base_rx_hex": wire::hex(&b.rx[..b.rx.len().min(400)])});
+                                    // fewer responses while the connection stays open: a completely sent request was
+                                    // left unanswered (C10: each request is answered ...; C12: one response per loud request)
+                                    let hang = (o.rx.len() < b.rx.len() && !o.closed) || (b.rx.len() < o.rx.len() && !b.closed);
+                                    let tags: &[&'static str] = if hang { &["C09", "C13", "C10", "C12"] } else { &["C09", "C13"] };
                                     shared.lock().unwrap().violation(
-                                        Viol::new(&["C09", "C13"], "segmentation-dependent", format!("socket: cut set {:?} vs unsplit stream: {}", &cs[..cs.len().min(8)], what)),
+                                        Viol::new(tags, "segmentation-dependent", format!("socket: cut set {:?} vs unsplit stream: {}", &cs[..cs.len().min(8)], what)),
                                         d,
                                     );
                                     break;
